@@ -173,6 +173,55 @@ def t_set_boundaries(E, P, k, a, bnew):
     E.prove(And(*[_same(x, y) for x, y in zip(after_ring, before)]), 'ring memory itself is unchanged')
 
 
+class _Kbd(object):
+    _pyvc_trusted = True
+    def __init__(self, buf):
+        self.buf = buf
+        self.mod = 0
+        self.keypad_ascii = b''
+
+
+def t_bios_mirror(E, P, k, j):
+    """PEEK in segment 0: 1050/1052 are the head/tail pointers (30 + 2*slot), 1054..1085 the 16 ring
+    slots (character, scan code) - every slot, also slot 15, shows the key the ring holds there."""
+    from pcbasic.basic import machine
+    b, q, keys = _buf(E, P, k)
+    m = object.__new__(machine.Memory)
+    m.keyboard = _Kbd(b)
+    start = E.call(getattr, b, 'start').value
+    stop = E.call(getattr, b, 'stop').value
+    lo = E.call(m._get_low_memory, 1050)
+    hi = E.call(m._get_low_memory, 1051)
+    E.prove(not lo.raised and bool(And(lo.value == 30 + 2 * start, hi.value == 0)), 'PEEK(1050) is 30 + 2 * head slot')
+    lo = E.call(m._get_low_memory, 1052)
+    E.prove(not lo.raised and bool(lo.value == 30 + 2 * stop), 'PEEK(1052) is 30 + 2 * tail slot')
+    if j < min(k, RING - 1):
+        slot = (P + j) % RING
+        c = E.call(m._get_low_memory, 1054 + 2 * slot)
+        sc = E.call(m._get_low_memory, 1055 + 2 * slot)
+        E.prove(not c.raised and not sc.raised, 'never raises')
+        if not c.raised and not sc.raised:
+            E.prove(And(c.value == to_cells(keys[j][0])[0], sc.value == keys[j][1]),
+                    'ring slot %d shows waiting key %d: character at the even, scan code at the odd address' % (slot, j))
+    if j != 0:
+        return
+    # POKE of a slot changes exactly that slot
+    slot = E.concretize(E.int('slot', 0, RING - 1))
+    val = E.int('value', 1, 223)
+    before = [E.call(b.ring_read, i).value for i in range(RING)]
+    r = E.call(m._set_low_memory, 1054 + 2 * slot, val)
+    E.prove(not r.raised, 'POKE never raises')
+    after = [E.call(b.ring_read, i).value for i in range(RING)]
+    for i in range(RING):
+        if i == slot:
+            E.prove(And(to_cells(after[i][0])[0] == val, after[i][1] == before[i][1]) if len(to_cells(after[i][0])) == 1 else False,
+                    'the poked slot holds the new character, scan code unchanged')
+        else:
+            E.prove(_same(after[i], before[i]), 'other slots unchanged')
+    rb = E.call(m._get_low_memory, 1054 + 2 * slot)
+    E.prove(not rb.raised and bool(rb.value == val), 'PEEK returns the byte poked')
+
+
 _PS = list(range(16, 48))
 
 TASKS = [
@@ -183,6 +232,9 @@ TASKS = [
     Task('KeyboardBuffer ring mirror', t_mirror, cases=[{'P': P, 'k': k} for P in _PS for k in range(0, 16)]),
     Task('KeyboardBuffer.ring_set_boundaries (POKE 1050, PEEK(1052))', t_clear_by_poke,
          cases=[{'P': P, 'k': k} for P in _PS for k in range(0, 16)]),
+    Task('Memory._get_low_memory/_set_low_memory (BIOS mirror)', t_bios_mirror,
+         cases=[{'P': P, 'k': k, 'j': j} for P, k in ((16, 0), (16, 15), (17, 15), (20, 12), (31, 3), (33, 15), (47, 8))
+                for j in sorted(set([0, 1, max(k - 1, 0), 14 - P % 16 if 0 <= 14 - P % 16 < k else 0, 15 - P % 16 if 0 <= 15 - P % 16 < k else 0]))]),
     Task('KeyboardBuffer.ring_set_boundaries (all head/tail pairs)', t_set_boundaries,
          cases=[{'P': P, 'k': k, 'a': a, 'bnew': bn} for P, k in ((16, 0), (21, 3), (35, 15), (47, 9))
                 for a in range(16) for bn in range(16)]),
@@ -195,5 +247,4 @@ ASSUMPTIONS = [
 ]
 NOT_COVERED = [
     'Keyboard._key_down -> codepage conversion -> append plumbing and INPUT consumption through the console',
-    'machine.Memory._get_low_memory/_set_low_memory address arithmetic (30 + 2*index) around these calls',
 ]
